@@ -17,7 +17,7 @@ Grids (all complete within their bounds):
   g5 chains     : k successive hops (include / namespace def / inherit /
                   include_file / get_namespace), every file in every directory,
                   relative and absolute spellings
-  g6 (thorough) : g1 x g3 crossed
+  g6 crossed   : g1 x g3 (include args and context names at every depth, spelling, site)
 """
 
 import functools
@@ -62,23 +62,23 @@ ASSUMPTIONS = [
 ]
 BOUNDS = {
     "quick": {
-        "g1": "depth 0..3 x 9 spellings x (8 written-in mechanisms x 4 sites + 3 namespace-relative mechanisms) x present/absent x 3 backings",
-        "g2": "2^5 presence combinations x inline def with/without context reference x 5 import modes x 6 probes x 2 backings; inline-only namespaces",
+        "g1": "depth 0..3 x 9 spellings x (9 written-in mechanisms x 4 sites + 3 namespace-relative mechanisms) x present/absent x 3 backings",
+        "g2": "2^5 presence combinations x inline def with/without context reference x 5 import modes x 6 probes (tag in the base) + 4 probes (tag in the derived template) + anonymous namespaces, put_string backing; inline-only namespaces",
         "g3": "2 page signatures x 8 arg sets x 8 context sets x 4 includers x 2 mechanisms (+ inheriting targets) x 2 backings",
         "g4": "module namespace: 5 import modes x inline/context competitors x 7 probes",
         "g5": "chains of 1..2 hops x 5 mechanisms per hop x 3 directories per file x relative/absolute spelling, files backing (+ put_string where no dot segment); 3 hops x {include, namespace def, inherit} x 2 directories, relative",
         "g6": "g1 x g3: depth 0..3 x 3 spellings x 4 include mechanisms x sites x 4 arg sets x 4 context sets",
     },
     "thorough": {
-        "g1": "depth 0..3 x 15 spellings x (8 x 4 + 3) mechanisms x present/absent x 3 backings x main URI with/without leading slash",
-        "g2": "as quick + 3-level inheritance of the declaring template + two names",
+        "g1": "depth 0..3 x 15 spellings x (9 x 4 + 3) mechanisms x present/absent x 3 backings x main URI with/without leading slash (files)",
+        "g2": "as quick + files backing + 3-level inheritance chain + import list spelled 'f ,k'",
         "g3": "3 page signatures x 8 arg sets x 8 context sets x 4 includers x 2 mechanisms x 2 backings",
         "g4": "as quick",
-        "g5": "chains of 1..3 hops x 5 mechanisms x 4 directories x relative/absolute spelling; 4 hops x 4 mechanisms x 2 directories; 5 hops (6 files) x 3 mechanisms and 7 hops (8 files) x 2 mechanisms x 2 directories, relative",
+        "g5": "chains of 1..2 hops x 5 mechanisms x 4 directories, 3 hops x 5 mechanisms x 3 directories, 4 hops x 3 mechanisms x 2 directories, relative/absolute spelling; 5 hops (6 files) x 3 mechanisms and 7 hops (8 files) x mechanism vectors over {include, namespace def} with at most one change x 2 directories, relative",
         "g6": "g1 x g3: depth 0..3 x 5 spellings x 4 include mechanisms x sites x 4 arg sets x 8 context sets",
     },
 }
-READY = False
+READY = True
 
 
 # --------------------------------------------------------------------------
@@ -128,7 +128,7 @@ def target_file(key, tx):
 
 G1_SPELL_QUICK = ["t.html", "./t.html", "sub/t.html", "../t.html", "../../t.html", "/abs/t.html", "/t.html", "gone.html", "/abs/gone.html"]
 G1_SPELL_MORE = ["sub/../t.html", "../sub/t.html", "./../t.html", "sub/./t.html", "/abs/../t.html", "/abs/./sub/t.html"]
-G1_MECH_A = ["ns_tag", "include_tag", "inherit_tag", "get_namespace", "get_template", "include_file", "include_expr", "ns_tag_expr"]
+G1_MECH_A = ["ns_tag", "include_tag", "inherit_tag", "get_namespace", "get_template", "include_file", "include_expr", "ns_tag_expr", "inherit_expr"]
 G1_MECH_B = ["ns_get_namespace", "ns_get_template", "ns_include_file"]
 G1_SITES = ["main", "base", "nsdef", "included"]
 
@@ -170,6 +170,10 @@ def g1_program(al, d, sp, mech, site, present, extra_args=None, page=None, ctx_e
         elif mech == "inherit_tag":
             inherit = sp
             st = [T("[own-body]")]
+        elif mech == "inherit_expr":
+            inherit = ["var", "u"]
+            ctx["u"] = sp
+            st = [T("[own-body]")]
         elif mech == "get_namespace":
             st = [["get_ns", "local", sp, "body", ""], ["get_ns", "local", sp, "m", ""], ["get_ns", "local", sp, "blk", ""]]
         elif mech == "get_template":
@@ -188,7 +192,7 @@ def g1_program(al, d, sp, mech, site, present, extra_args=None, page=None, ctx_e
             files[M] = File(inherit=S, body=[T("[main-body]")])
         elif site == "nsdef":
             M = mdir + "/main.html"
-            if mech == "inherit_tag":
+            if mech in ("inherit_tag", "inherit_expr"):
                 files[S] = File(inherit=inherit, defs=[Def("go", "", [T("[go]")])])
                 files[M] = File(ns=[Ns("s", file=S)], body=[T("<"), ["attr", "s", "m", ""], T(">")])
             else:
@@ -279,7 +283,7 @@ G2_IMPORTS = [None, "f", "*", "k, f", "k"]
 G2_PROBES = ["q_ns", "q_bare", "q_self", "q_def", "q_block", "q_derived_bare"]
 
 
-def g2_program(al, I, F, P, C, H, iuse, imp, probe, levels=2, anon=False):
+def g2_program(al, I, F, P, C, H, iuse, imp, probe, levels=2, anon=False, where="base"):
     v = al["vals"]
     tx = al["txt"]
     ctx = {"x": v[0]}
@@ -313,6 +317,11 @@ def g2_program(al, I, F, P, C, H, iuse, imp, probe, levels=2, anon=False):
     elif probe == "q_derived_bare":
         main_body.append(["call", "f", ""])
     base_body += [["attr", "next", "body", ""], T(")")]
+    if where == "derived":
+        # the tag is written in the inheriting template itself; the probes run in its own body
+        files["/p/base.html"] = File(body=[T("B("), ["attr", "next", "body", ""], T(")")])
+        files["/p/main.html"] = File(inherit="base.html", ns=[nsd], defs=base_defs, body=[T("M:")] + base_body[1:-2] + main_body[1:])
+        return files, "/p/main.html", ctx
     files["/p/base.html"] = File(ns=[nsd], defs=base_defs, body=base_body)
     if levels == 3:
         files["/p/mid.html"] = File(inherit="base.html", body=[T("mid("), ["attr", "next", "body", ""], T(")")])
@@ -323,13 +332,17 @@ def g2_program(al, I, F, P, C, H, iuse, imp, probe, levels=2, anon=False):
 
 
 def gen_g2(tier, al):
+    imports = G2_IMPORTS + (["f ,k"] if tier == "thorough" else [])
     for I, F, P, C, H in itertools.product((0, 1), repeat=5):
         for iuse in (0, 1) if I else (0,):
-            for imp in G2_IMPORTS:
+            for imp in imports:
                 for probe in G2_PROBES:
                     for levels in (2, 3) if tier == "thorough" else (2,):
                         meta = {"grid": "g2", "I": I, "F": F, "P": P, "C": C, "H": H, "iuse": iuse, "imp": imp, "probe": probe}
                         yield meta, functools.partial(g2_program, al, I, F, P, C, H, iuse, imp, probe, levels)
+                    if not H and probe in ("q_ns", "q_bare", "q_def", "q_block"):
+                        meta = {"grid": "g2", "I": I, "F": F, "P": P, "C": C, "H": H, "iuse": iuse, "imp": imp, "probe": probe, "where": "derived"}
+                        yield meta, functools.partial(g2_program, al, I, F, P, C, H, iuse, imp, probe, 2, where="derived")
                     if imp is not None and not H and probe in ("q_bare", "q_def", "q_block", "q_derived_bare"):
                         # <%namespace> without a name: reachable through import only
                         meta = {"grid": "g2", "I": I, "F": F, "P": P, "C": C, "H": H, "iuse": iuse, "imp": imp, "probe": probe, "anon": 1}
@@ -551,17 +564,21 @@ def g5_specs(tier, al):
     return [
         (1, D4, G5_MECH, both),
         (2, D4, G5_MECH, both),
-        (3, D4, G5_MECH, both),
-        (4, D2, ["inc", "nsd", "gns", "inh"], both),
+        (3, D3, G5_MECH, both),
+        (4, D2, ["inc", "nsd", "inh"], both),
         (5, D2, ["inc", "nsd", "inh"], ("rel",)),  # 6 files
-        (7, D2, ["inc", "nsd"], ("rel",)),  # 8 files
+        (7, D2, "one-switch", ("rel",)),  # 8 files; mechanism vectors over {inc, nsd} with at most one change
     ]
 
 
 def gen_g5(tier, al):
     for k, D, mechset, spellset in g5_specs(tier, al):
+        if mechset == "one-switch":
+            mvecs = [tuple([a] * i + [b] * (k - i)) for a, b in (("inc", "nsd"), ("nsd", "inc")) for i in range(1, k + 1)]
+        else:
+            mvecs = list(itertools.product(mechset, repeat=k))
         for dirs in itertools.product(D, repeat=k + 1):
-            for mechs in itertools.product(mechset, repeat=k):
+            for mechs in mvecs:
                 for spells in itertools.product(spellset, repeat=k):
                     meta = {"grid": "g5", "k": k, "mechs": "-".join(mechs), "spells": "-".join(spells), "dirs": [x or "/" for x in dirs]}
                     yield meta, functools.partial(g5_program, al, dirs, mechs, spells)
@@ -652,6 +669,8 @@ def cases(grid, tier, seed, shard=0, nshards=1):
         for backing in BACKINGS[grid]:
             if backing == "put" and grid == "g5" and (dots or meta["k"] > 2):
                 continue
+            if backing == "files1" and grid == "g2" and tier == "quick":
+                continue  # precedence does not depend on the backing: second backing in the thorough tier only
             for ms in main_spell:
                 if ms != M and backing == "put":
                     continue
@@ -903,7 +922,7 @@ def _shards(tier):
     n = core.NPROC
     per = {"g1": 2 * n, "g2": 2 * n, "g3": n, "g4": 2, "g5": 2 * n, "g6": n}
     if tier == "thorough":
-        per = {"g1": 2 * n, "g2": 2 * n, "g3": n, "g4": 2, "g5": 16 * n, "g6": n}
+        per = {"g1": 2 * n, "g2": 2 * n, "g3": n, "g4": 2, "g5": 8 * n, "g6": n}
     return per
 
 
